@@ -150,7 +150,7 @@ pub fn check_case(c: &L2Case, prop: &str, rep: &mut Report) -> bool {
             // the raw decoder object is reusable: the verdict must not depend on what the same object
             // saw before (same stream again, with and without reset)
             let first = api::raw_lzma2(&data);
-            let again = raw_twice(&data);
+            let again = raw_twice(&data, e.v == Exp::Ok);
             if let Some(msg) = again {
                 let mut cj = serde_json::to_value(c).unwrap();
                 cj["kind"] = json!("lzma2");
@@ -220,7 +220,7 @@ pub fn check_case(c: &L2Case, prop: &str, rep: &mut Report) -> bool {
 }
 
 /// Decode the same stream three times on ONE Lzma2Decoder (plain reuse, then after reset()).
-fn raw_twice(data: &[u8]) -> Option<String> {
+fn raw_twice(data: &[u8], well_formed: bool) -> Option<String> {
     use lzma_rs::decompress::raw::Lzma2Decoder;
     let r = crate::io::catch(|| {
         let mut d = Lzma2Decoder::new();
@@ -241,6 +241,10 @@ fn raw_twice(data: &[u8]) -> Option<String> {
         crate::io::Caught::Done(v) => {
             if v[0].0 != v[2].0 || (v[0].0 && v[0].1 != v[2].1) {
                 Some(format!("the same stream gives {} on a new Lzma2Decoder but {} after the same object saw it before and was reset", if v[0].0 { "Ok" } else { "Err" }, if v[2].0 { "Ok" } else { "Err" }))
+            } else if well_formed && v[0].0 && (!v[1].0 || v[1].1 != v[0].1) {
+                // a well-formed stream starts with a dictionary reset, a state reset and new properties: nothing of
+                // what the object did before can show, reset() or not
+                Some(format!("a well-formed stream offered to the same Lzma2Decoder again (no reset) gives {} with {} bytes, the first time Ok with {} bytes", if v[1].0 { "Ok" } else { "Err" }, v[1].1.len(), v[0].1.len()))
             } else if !v[0].0 && v[1].0 {
                 Some("a stream rejected by a new Lzma2Decoder is accepted when offered to the same object again".to_string())
             } else {
